@@ -1163,3 +1163,4 @@ def register(E):
               'std::mem::size_of_val', 'std::mem::align_of_val'):
         B[k] = host_query
     B['String::clone'] = lambda e, a, c: deref(a[0])
+    B['ToOwned::to_owned'] = lambda e, a, c: deep_clone(deref(a[0]))
